@@ -62,10 +62,26 @@ fn main() {
             if args.len() < 4 {
                 usage();
             }
-            dispatch!(args[2].as_str(), replay_cmd, Path::new(&args[3]))
+            match args[2].as_str() {
+                "C04" | "C05" | "C06" => match replay_in_child(&args[2], Path::new(&args[3])) {
+                    ReplayOutcome::Pass => {
+                        println!("PASS property={} replay={}", args[2], args[3]);
+                        0
+                    }
+                    other => {
+                        println!("VIOLATION property={} replay={}", args[2], args[3]);
+                        eprintln!("  {other:?}");
+                        1
+                    }
+                },
+                id => dispatch!(id, replay_cmd, Path::new(&args[3])),
+            }
         }
         "gen-corpus" => props::c14::gen_corpus(Path::new(&args[2]), args[3].parse().unwrap(), &args[4]),
-        "replay-child" => dispatch!(args[2].as_str(), replay_child, Path::new(&args[3])),
+        "replay-child" => match args[2].as_str() {
+            "C04" | "C05" | "C06" => jbkv::faults::replay_child_cmd(&args[2], Path::new(&args[3])),
+            id => dispatch!(id, replay_child, Path::new(&args[3])),
+        },
         _ => usage(),
     };
     std::process::exit(code);
